@@ -343,6 +343,36 @@ func c12(c *Ctx) {
 				r, _ := cfgx.ReachableFromEdges(manual, w, nil, nil)
 				c.R.Check(!r, site(w)+" not-under-manual", c.pos(w.Pos()), "no write is reachable under the Manual policy with a selected revision", "a Manual XR's revision reference can be rewritten")
 			}
+			// Manual ∧ referenced ⇒ pinned, with no further condition: every write
+			// lies beyond "no reference yet", "no policy" or "policy != Manual"
+			var notPinned []cfgx.Edge
+			for _, b := range ft.Blocks {
+				for _, in := range b.Instrs {
+					bo, ok := in.(*ssa.BinOp)
+					if !ok {
+						continue
+					}
+					if (bo.Op == token.NEQ || bo.Op == token.EQL) && cfgx.IsNilConst(bo.Y) && (hasSuffixCall(bo.X, ".GetCompositionRevisionReference") || hasSuffixCall(bo.X, ".GetCompositionUpdatePolicy")) {
+						t, f := cfgx.CondEdges(bo)
+						if bo.Op == token.NEQ {
+							notPinned = append(notPinned, f...)
+						} else {
+							notPinned = append(notPinned, t...)
+						}
+					}
+					if bo.Op == token.EQL {
+						for _, sv := range []ssa.Value{bo.X, bo.Y} {
+							if v, ok := cfgx.ConstString(sv); ok && v == "Manual" {
+								_, f := cfgx.CondEdges(bo)
+								notPinned = append(notPinned, f...)
+							}
+						}
+					}
+				}
+			}
+			for _, w := range directWrites(ft) {
+				c.requireCross(site(w)+" only-when-not-pinned", w, notPinned, "no revision reference yet, no update policy, or policy != Manual (no other way past the pin)")
+			}
 			c.R.Check(len(rets) == 1, load.FuncName(ft)+": manual returns pinned", c.pos(ft.Pos()), "the Manual edge returns directly", "the Manual edge does not return the pinned revision directly")
 			if len(rets) == 1 {
 				// the revision returned was read by the pinned name
